@@ -7,6 +7,7 @@ import (
 
 	"golang.org/x/tools/go/ssa"
 
+	"gohbaseverif/bounds"
 	"gohbaseverif/kit"
 )
 
@@ -230,6 +231,10 @@ func runC12(c *kit.Ctx) {
 	constructorsForwardTheirOptions(c)
 
 	c.StartRule("R2", "only retryable classes are sent again", 3)
+	classificationGoesByClassName(c)
+	// a well-formed response that the decoder refuses is answered with a retryable error for every call of the
+	// multi-request: all of them - also those whose success is in that very response - are executed again
+	guardsAreTight(c, bounds.New(c.P), []*ssa.Function{c.P.Func("hrpc", "", "cellFromCellBlock")})
 	everyFailedResultReachesTheReaction(c)
 	multiDecodesEveryResult(c)
 	regionExceptionUnchanged(c)
